@@ -6,6 +6,7 @@ import (
 	"path/filepath"
 	"sort"
 	"strings"
+	"time"
 
 	textwire "github.com/textwire/textwire/v2"
 	"github.com/textwire/textwire/v2/config"
@@ -93,6 +94,11 @@ func init() {
 							}
 							files[rel+ext] = content
 							want[rel] = content
+						}
+						if sub == "layouts/" {
+							// a file that declares a reserve is a layout, also when it names a layout itself
+							files[sub+"mid"+ext] = "@use(\"~ab\")M<@reserve(\"q\")>"
+							layouts[sub+"mid"] = true
 						}
 						// decoys: the extension occurs in the name but not at its end
 						files[sub+"a"+ext+".bak"] = "decoy"
@@ -277,6 +283,57 @@ func init() {
 						c.Nontrivial("ef:" + content)
 						if fo != so || (fe == nil) != (se == nil) || (fe != nil && ErrMessage(fe) != ErrMessage(se)) {
 							c.Violation("evaluate-file-differs", fmt.Sprintf("EvaluateFile gave (%q, %v), EvaluateString of the content gave (%q, %v)", clipS(fo, 200), fe, clipS(so, 200), se), map[string]any{"content": content, "round": round})
+						}
+					}
+					// the same path rewritten with other text of the same length and the same modification time
+					fixed := time.Unix(1700000000, 0)
+					for k, content := range []string{"<b>{{ 2 * 3 }}</b> first", "<i>{{ 2 * 5 }}</i> other", "<u>{{ 2 * 7 }}</u> third"} {
+						os.WriteFile(path, []byte(content), 0o644)
+						os.Chtimes(path, fixed, fixed)
+						var fo string
+						var fe error
+						c.Eval(1)
+						if c.Guard(func() { fo, fe = textwire.EvaluateFile(path, nil) }) {
+							continue
+						}
+						so, _ := textwire.EvaluateString(content, nil)
+						if fe != nil || fo != so {
+							c.Violation("evaluate-file-stale", fmt.Sprintf("rewrite %d (same size, same modification time): EvaluateFile gave (%q, %v), the content evaluates to %q", k, fo, fe, so), map[string]any{"content": content})
+						}
+					}
+					// paths the operating system resolves differently from their lexically cleaned form
+					os.RemoveAll("efx")
+					os.MkdirAll("efx/real/deep", 0o755)
+					os.MkdirAll("efx/other/place", 0o755)
+					os.WriteFile("efx/real/page.tw", []byte("real {{ 1 }}"), 0o644)
+					os.WriteFile("efx/other/page.tw", []byte("other {{ 2 }}"), 0o644)
+					os.Symlink("../other/place", "efx/real/link")
+					for _, rel := range []string{"efx/real/page.tw", "efx/real/deep/../page.tw", "efx/real/./page.tw", "efx/real//page.tw", "efx/real/link/../page.tw",
+						"efx/real/missing/../page.tw", "efx/real/page.tw/", "efx/real/page.tw/.", "efx/real/page.tw/../page.tw", "efx/real/deep", "efx/real/link"} {
+						for _, abs := range []bool{false, true} {
+							pth := rel
+							if abs {
+								wd, _ := os.Getwd()
+								pth = wd + "/" + rel
+							}
+							raw, rerr := os.ReadFile(pth)
+							var fo string
+							var fe error
+							c.Eval(1)
+							if c.Guard(func() { fo, fe = textwire.EvaluateFile(pth, nil) }) {
+								continue
+							}
+							c.Nontrivial("efpath:" + pth)
+							if rerr != nil {
+								if fe == nil {
+									c.Violation("evaluate-file-unreadable-path", fmt.Sprintf("the path %q cannot be read (%v) but EvaluateFile returned %q", rel, rerr, fo), map[string]any{"path": rel})
+								}
+								continue
+							}
+							so, se := textwire.EvaluateString(string(raw), nil)
+							if fo != so || (fe == nil) != (se == nil) {
+								c.Violation("evaluate-file-path", fmt.Sprintf("the path %q holds %q: EvaluateFile gave (%q, %v), the content evaluates to (%q, %v)", rel, raw, fo, fe, so, se), map[string]any{"path": rel})
+							}
 						}
 					}
 					// a path that does not exist is an error that names it
